@@ -5,6 +5,16 @@ import inspect
 import framework as fw
 
 LEVEL = "proof"
+TECHNIQUE = "Lean 4 theorems over a rose-tree model of detectors + exact differential run against pyrex.detector"
+LEVEL_TEXT = ("18 theorems (flatten is a monoid homomorphism, +/+=/sum associative in flattened content, multiplicities "
+              "add, position test, any-hit trigger incl. the statement-by-statement call semantics with keyword "
+              "forwarding/TypeError/retry, clear, keyword stripping and build routing) hold for trees of every shape "
+              "and depth; the executable model agrees exactly with pyrex.detector on every generated expression, query "
+              "and keyword set")
+LEVEL_NOTE = ("the Lean model is pure (flatten is recomputed, there is no cache that could go stale); histories that "
+              "mutate a nested part after a query (inner += x, list.append, rebuilding a string) are covered by the "
+              "model-free history oracle in search(), not by a theorem. Plain `Detector` is never instantiated directly. "
+              "Trusted: Lean kernel, the harness' dynamically generated Detector subclasses and canonicalisation.")
 RULE = ("random nestings (depth<=4) of dynamically created Detector subclasses with differing "
         "`triggered` signatures, CombinedDetectors, bare antennas and antenna lists, combined by random "
         "expression trees over +, += and sum; a case is non-trivial when it involves at least one "
